@@ -20,6 +20,8 @@ echo "== demo with the change" >> $out
 (cd /repo && PYTHONPATH=/repo/src timeout 600 /venv/bin/python /repo/_seed/demo.py > /tmp/seed_demo1.log 2>&1; echo "exit=$?" >> $out; tail -2 /tmp/seed_demo1.log >> $out)
 echo "== test suite with the change (expected: the 7 always-failing tests only)" >> $out
 (cd /repo && /venv/bin/python -m pytest -q -p no:cacheprovider --timeout=900 -q 2>&1 | grep -E "^FAILED|passed|failed" >> $out)
+evidence_backup=$(mktemp -d)
+cp /verif/evidence/*.json $evidence_backup/ 2>/dev/null
 for c in $checks; do
   echo "== ./check $c with the change" >> $out
   (cd /verif && ./check $c --tier quick 2>&1 | grep -E "VIOLATION|KNOWN-FINDING|CHECK BROKEN|tier=" | head -8 >> $out)
@@ -28,6 +30,8 @@ for c in $checks; do
   done
 done
 git -C /repo checkout -- .
+# evidence written while the seeded change was applied must never stay in the tree
+cp $evidence_backup/*.json /verif/evidence/ 2>/dev/null; rm -rf $evidence_backup
 rm -rf /repo/_seed
 git -C /repo status --short >> $out
 cat $out
